@@ -96,6 +96,8 @@ def _encode_value(fmt, _type, value):
         if isinstance(value, (list, tuple)) and fmt.startswith('N3+'):
             number = _encode_value(fmt[3:], _type, value[1])
             return number[0] + value[0].rjust(3, '0') + number[1:]
+        if isinstance(value, decimal.Decimal):
+            value = format(value, 'f')  # no scientific notation (0E-7)
         value = str(value)
         if fmt.startswith('N..'):
             length = int(fmt[3:])
